@@ -141,6 +141,15 @@ class Algorithms:
                 if alg_type == 'aut':
                     continue
                 rec[sshv][alg_type] = {'add': {}, 'del': {}, 'chg': {}}
+
+                # Map the database name of each advertised algorithm to the name(s) actually advertised.  They only differ for GSS key exchanges, whose base64 suffix is replaced by the wildcard used in the database (i.e.: 'gss-gex-sha1-vz8J1E9PzLr8b1K+0remTg==' => 'gss-gex-sha1-*').
+                advertised: Dict[str, List[str]] = {}
+                for alg_name in alg_list:
+                    db_name = alg_name
+                    if alg_type == 'kex' and alg_name.startswith('gss-'):
+                        db_name = "%s-*" % alg_name[0:alg_name.rindex('-')]
+                    advertised.setdefault(db_name, []).append(alg_name)
+
                 for n, alg_desc in alg_db[alg_type].items():
                     versions = alg_desc[0]
                     empty_version = False
@@ -171,7 +180,7 @@ class Algorithms:
                         fc = len(alg_desc[i])
                         if fc > 0:
                             faults += pow(10, 2 - i) * fc
-                    if n not in alg_list:
+                    if n not in advertised:
                         # Don't recommend certificate or token types; these will only appear in the server's list if they are fully configured & functional on the server.  Also don't recommend 'ext-info-[cs]' nor 'kex-strict-[cs]-v00@openssh.com' key exchanges.
                         if faults > 0 or \
                            (alg_type == 'key' and (('-cert-' in n) or (n.startswith('sk-')))) or \
@@ -182,10 +191,11 @@ class Algorithms:
                     else:
                         if faults == 0:
                             continue
-                        if n in ['diffie-hellman-group-exchange-sha256', 'rsa-sha2-256', 'rsa-sha2-512', 'rsa-sha2-256-cert-v01@openssh.com', 'rsa-sha2-512-cert-v01@openssh.com']:
-                            rec[sshv][alg_type]['chg'][n] = faults
-                        else:
-                            rec[sshv][alg_type]['del'][n] = faults
+                        for advertised_name in advertised[n]:
+                            if n in ['diffie-hellman-group-exchange-sha256', 'rsa-sha2-256', 'rsa-sha2-512', 'rsa-sha2-256-cert-v01@openssh.com', 'rsa-sha2-512-cert-v01@openssh.com']:
+                                rec[sshv][alg_type]['chg'][advertised_name] = faults
+                            else:
+                                rec[sshv][alg_type]['del'][advertised_name] = faults
                 # If we are working with unknown software, drop all add recommendations, because we don't know if they're valid.
                 if unknown_software:
                     rec[sshv][alg_type]['add'] = {}
